@@ -171,6 +171,12 @@ fn ffi_server_once(rt: &FfiRuntime, variant: Variant, filter: &FilterSpec, ip: &
 fn ffi_server_tls(rt: &FfiRuntime, variant: Variant, filter: &FilterSpec, ip: &str, points: Vec<DbOp>, wstate: Arc<Mutex<WriteState>>, set: [bool; 4], tls: (&str, &str, c_int, c_int)) -> Result<(FfiServer, SocketAddr, Arc<Mutex<AuthLog>>), String> {
     let parts = filter_parts(filter);
     let filt = ffi_filter(&parts).map_err(|rc| format!("address_filter_create/add -> {rc}"))?;
+    ffi_server_with_filter(rt, variant, filt, ip, points, wstate, set, tls)
+}
+
+/// the filter object is consumed (destroyed after the server has been created)
+#[allow(clippy::too_many_arguments)]
+fn ffi_server_with_filter(rt: &FfiRuntime, variant: Variant, filt: *mut rodbus_ffi::AddressFilter, ip: &str, points: Vec<DbOp>, wstate: Arc<Mutex<WriteState>>, set: [bool; 4], tls: (&str, &str, c_int, c_int)) -> Result<(FfiServer, SocketAddr, Arc<Mutex<AuthLog>>), String> {
     let (wh, _d) = write_handler(wstate, set);
     let (map, _r) = device_map(1, wh, points);
     let port = free_port(ip.trim_matches(|c| c == '[' || c == ']'));
@@ -199,6 +205,33 @@ fn ffi_server_tls(rt: &FfiRuntime, variant: Variant, filter: &FilterSpec, ip: &s
     }
     let addr: SocketAddr = format!("{ip}:{port}").parse().unwrap();
     Ok((FfiServer(out), addr, log))
+}
+
+/// connect from `peer` and ask for two holding registers: was the request answered?
+fn probe_ffi_server(variant: Variant, addr: SocketAddr, peer: &str) -> bool {
+    if variant == Variant::Tcp {
+        if let Ok(mut s) = connect_from(peer, addr) {
+            let _ = s.write_all(&mbap_frame(0x0B0B, 1, &[3, 0, 0, 0, 2]));
+            if let Ok(b) = read_exact_timeout(&mut s, 13, 1500) {
+                return b[..2] == [0x0B, 0x0B] && b[9..13] == [0, 100, 0, 101];
+            }
+        }
+        return false;
+    }
+    let src = peer.to_string();
+    crate::net::rt().block_on(async move {
+        if let Ok(tcp) = crate::net::connect_from(&src, addr).await {
+            let connector = tokio_rustls::TlsConnector::from(crate::net::peer_client_config(crate::net::PeerVersions::Both, "cli_operator"));
+            let name = tokio_rustls::rustls::pki_types::ServerName::try_from("test.com").unwrap();
+            if let Ok(Ok(mut tls)) = tokio::time::timeout(Duration::from_millis(1500), connector.connect(name, tcp)).await {
+                crate::net::write_all(&mut tls, &mbap_frame(0x0B0B, 1, &[3, 0, 0, 0, 2])).await;
+                if let crate::net::ReadOutcome::Bytes(b) = crate::net::read_n(&mut tls, 13, Duration::from_millis(1500)).await {
+                    return b[..2] == [0x0B, 0x0B];
+                }
+            }
+        }
+        false
+    })
 }
 
 fn ten_registers() -> Vec<DbOp> {
@@ -298,6 +331,65 @@ fn judge_ffi_case(c: &FfiCase, r: &(bool, Vec<u8>, u32)) -> Vec<(String, String)
     out
 }
 
+/// an `address_filter_add` that is refused leaves the filter exactly as it was
+fn c16_refused_add(rt: &FfiRuntime, st: &mut Stats) {
+    // an add that is refused leaves the filter exactly as it was
+    for variant in [Variant::Tcp, Variant::Tls, Variant::TlsAuthz] {
+        for (first, bad, inside, outside) in [("127.0.0.1", "10.1.*.*", "127.0.0.1", "127.0.0.2"), ("127.0.0.*", "127.0.1.2", "127.0.0.3", "127.0.1.2"), ("127.0.0.2", "not-an-address", "127.0.0.2", "127.0.0.1")] {
+            for peer in [inside, outside] {
+                st.evaluations += 1;
+                st.class("c-abi-refused-add");
+                let expect_served = peer == inside;
+                let mut verdict: Option<bool> = None;
+                for _attempt in 0..2 {
+                    let mut filt: *mut rodbus_ffi::AddressFilter = null_mut();
+                    let rc = unsafe { ffi::rodbus_address_filter_create(cstr(first).as_ptr(), &mut filt) };
+                    if rc != OK {
+                        st.violation(Violation { signature: "c-abi-filter-string".into(), summary: format!("address_filter_create({first:?}) -> {rc}"), replay: json!({}) });
+                        break;
+                    }
+                    let rc_add = unsafe { ffi::rodbus_address_filter_add(filt, cstr(bad).as_ptr()) };
+                    if rc_add == OK {
+                        st.violation(Violation { signature: "c-abi-add-accepted".into(), summary: format!("address_filter_add({bad:?}) on a filter created from {first:?} was accepted"), replay: json!({}) });
+                        unsafe { ffi::rodbus_address_filter_destroy(filt) };
+                        break;
+                    }
+                    let server = ffi_server_with_filter(rt, variant, filt, "127.0.0.1", ten_registers(), Arc::new(Mutex::new(WriteState::default())), [true; 4], ("ca_a", "srv_valid", 0, 0));
+                    let (server, addr, _log) = match server {
+                        Ok(x) => x,
+                        Err(_) => continue,
+                    };
+                    let served = probe_ffi_server(variant, addr, peer);
+                    drop(server);
+                    verdict = Some(served);
+                    if served == expect_served {
+                        break;
+                    }
+                }
+                st.observe(&(format!("{variant:?}"), first, bad, peer, verdict));
+                if let Some(served) = verdict {
+                    if served != expect_served {
+                        st.violation(Violation {
+                            signature: format!("c-abi-refused-add-changed-the-filter:{variant:?}"),
+                            summary: format!("filter created from {first:?}, address_filter_add({bad:?}) refused, {variant:?} server created from it: peer {peer} served={served}, expected {expect_served}"),
+                            replay: json!({"kind": "c16-ffi-refused-add"}),
+                        });
+                    }
+                }
+            }
+        }
+    }
+}
+
+pub fn replay_c16_refused_add() -> Vec<(String, String)> {
+    on_plain_thread(|| {
+        let rt = FfiRuntime::new(4);
+        let mut st = Stats::default();
+        c16_refused_add(&rt, &mut st);
+        st.violations_as_pairs()
+    })
+}
+
 pub fn c16_ffi_phase(rep: &mut Report) {
     let st = on_plain_thread(|| {
         let rt = FfiRuntime::new(4);
@@ -333,6 +425,7 @@ pub fn c16_ffi_phase(rep: &mut Report) {
                 }
             }
         }
+        c16_refused_add(&rt, &mut st);
         // strings rejected / accepted by address_filter_create
         for (s, ok) in [("*.*.*.*", true), ("127.0.0.1", true), ("::1", true), ("1.2.3", false), ("1.2.3.256", false), ("", false), ("a.b.c.d", false), ("1.2.3.4.5", false)] {
             st.evaluations += 1;
